@@ -57,6 +57,9 @@ def variant_sets(tier):
     full += [("SX", 0, False, False, 2, 0), ("SX", 2, True, False, 2, 0), ("MX", 1, False, False, 2, 0)]  # positive_next_* on
     full += [("SX", c, False, False, False, 1) for c in (0, 1, 2)] + [("MX", 0, True, False, False, 1), ("SX", 2, True, False, True, 1),
                                                                         ("SX", 0, False, False, False, 2), ("MX", 2, True, False, False, 2)]
+    # elements of user subclasses returning their next states in reversed key order; every element named "x"
+    full += [("SX", 0, False, False, False, 3), ("MX", 2, True, False, False, 3), ("SX", 0, True, False, False, 4),
+             ("SX", 0, False, False, False, 4), ("MX", 1, False, False, False, 4), ("SX", 2, True, False, False, 4)]
     reduced = [("SX", 1, True, False, False, 0), ("SX", 2, True, True, False, 0), ("MX", 2, False, False, False, 0),
                ("SX", 0, False, False, True, 0), ("SX", 1, False, False, False, 1)]
     if tier != "quick":
@@ -66,6 +69,7 @@ def variant_sets(tier):
         full += [(s, c, m, False, 2, 0) for s in ("SX", "MX") for c in (0, 1, 2) for m in (False, True)]
         full += [(s, c, m, False, o, h) for s in ("SX", "MX") for c in (0, 1, 2) for m in (False, True) for o in (False, True)
                  for h in (1, 2)]
+        full += [(s, c, m, False, False, h) for s in ("SX", "MX") for c in (0, 1, 2) for m in (False, True) for h in (3, 4)]
         reduced = [(s, c, True, p, o, 0) for s in ("SX", "MX") for c in (0, 1, 2) for p in (False, True) for o in (False, True)]
         reduced += [(s, c, False, False, False, 1) for s in ("SX", "MX") for c in (0, 1, 2)]
     return full, reduced
@@ -83,6 +87,15 @@ def user_conditions(built, XX):
     return ic
 
 
+def equal_names(spec):
+    keys = [f"n{i}" for i in range(spec.n)] + spec.link_keys() + [f"O{o.node}" for o in spec.origins] + [f"D{d.node}" for d in spec.dests]
+    return {k: "x" for k in keys}
+
+
+HISTORIES = ("step", "step;step(user symbols)", "step(user symbols)", "step, elements of user subclasses returning next states in "
+             "reversed key order", "step, every element named x")
+
+
 def compile_variant(spec, order, sym, compact, more_out, symbolic, opts, P, hist=0):
     """hist 0: one step with the engine's own symbols; 1: that step, then a second step with caller-supplied
     symbols (reversed key order); 2: a single step with caller-supplied symbols."""
@@ -93,16 +106,21 @@ def compile_variant(spec, order, sym, compact, more_out, symbolic, opts, P, hist
     if symbolic:
         syms = {p: XX.sym(p) for p in PSYM}
         override = {(f"L{i}", p): syms[p] for i in range(len(spec.links)) for p in _PSYM3}
-    built = build(spec, order=order, override=override)
+    if hist == 3:
+        built = build(spec, order=order, override=override, subclass="reorder")
+    elif hist == 4:
+        built = build(spec, order=order, override=override, names=equal_names(spec))
+    else:
+        built = build(spec, order=order, override=override)
     o = opts_of(opts)
-    if hist in (0, 1):
+    if hist in (0, 1, 3, 4):
         built.net.step(engine=eng, **P, **o)
     if hist in (1, 2):
         built.net.step(init_conditions=user_conditions(built, XX), engine=eng, **P, **o)
     kw = dict(P) if more_out else {}
     if symbolic:
         kw["parameters"] = syms
-    if hist:
+    if hist in (1, 2):
         # compact and more_out given POSITIONALLY, in the documented order of to_function(net, compact, more_out, ...)
         return eng.to_function(built.net, compact, more_out, **kw), built
     return eng.to_function(built.net, compact=compact, more_out=more_out, **kw), built
@@ -145,7 +163,7 @@ def check_spec(spec: NetSpec, label, st: Stats, plan):
             case = {"spec": spec.describe(), "config": label, "P": P, "order": oname, "sym": sym, "compact": compact,
                     "more_out": more_out, "symbolic": symbolic, "opts": opts, "hist": hist}
             tag = (f"{sym} compact={compact} more_out={more_out} params={symbolic} posinit={opts} order={oname} "
-                   f"history={('step', 'step;step(user symbols)', 'step(user symbols)')[hist]}")
+                   f"history={HISTORIES[hist]}")
 
             def bad(sig, msg):
                 problems.append((sig, f"{tag}: {msg}", case))
@@ -156,7 +174,7 @@ def check_spec(spec: NetSpec, label, st: Stats, plan):
                 bad(f"C04/exception/{exc_site(e)}/{type(e).__name__}", exc_text(e))
                 continue
             lay = Layout(spec, order=order, compact=compact, more_out=more_out, pnames=PSYM if symbolic else (),
-                         var_order=observed_var_order(built))
+                         var_order=observed_var_order(built), names=equal_names(spec) if hist == 4 else None)
             if lay.var_order_problem:
                 bad("C04/variables", lay.var_order_problem)
                 continue
@@ -268,7 +286,9 @@ def plans(tier, seed):
         specs0 = [(lab, s) for _, lab, s in all_specs(3, 3, 0, pal)]
         core = [("SX", 0, True, False, False, 0), ("SX", 1, True, True, False, 0), ("SX", 2, True, False, False, 0),
                 ("MX", 2, False, True, False, 0), ("SX", 1, False, False, True, 0), ("SX", 0, False, False, False, 1),
-                ("MX", 1, True, False, False, 1), ("SX", 3, False, False, False, 0), ("SX", 2, False, False, 2, 0)]
+                ("MX", 1, True, False, False, 1), ("SX", 3, False, False, False, 0), ("SX", 2, False, False, 2, 0),
+                ("SX", 0, False, False, False, 3), ("MX", 2, True, False, False, 3), ("SX", 0, True, False, False, 4),
+                ("MX", 1, False, False, False, 4)]
         jobs = [({"pset": 0, "d": 0, "variants": (core, core[1:3])}, specs1),
                 ({"pset": 0, "d": 0, "variants": variant_sets("quick")},
                  specs0 + [(f"harness:{k}", s) for k, s in harness_specs(pal).items()])]
@@ -281,7 +301,9 @@ def plans(tier, seed):
         h = [(f"harness:{k}", s) for k, s in harness_specs(pal).items()]
         core = [("SX", 0, True, False, False, 0), ("SX", 1, True, True, False, 0), ("SX", 2, True, False, False, 0),
                 ("MX", 2, False, True, False, 0), ("SX", 1, False, False, True, 0), ("SX", 0, False, False, False, 1),
-                ("MX", 1, True, False, False, 1), ("SX", 3, False, False, False, 0), ("MX", 0, True, False, True, 2)]
+                ("MX", 1, True, False, False, 1), ("SX", 3, False, False, False, 0), ("MX", 0, True, False, True, 2),
+                ("SX", 0, False, False, False, 3), ("MX", 2, True, False, False, 3), ("SX", 0, True, False, False, 4),
+                ("MX", 1, False, False, False, 4)]
         jobs = [({"pset": 0, "d": 0, "variants": variant_sets("thorough")}, a0 + h),
                 ({"pset": 0, "d": 0, "variants": (variant_sets("quick")[0], core[1:4])}, a1),
                 ({"pset": 1, "d": 0, "variants": (core, core[1:3])}, b),
